@@ -202,6 +202,9 @@ class C11(System):
             return tmo.MultiStream(None, T=T, P=P, phases=('g', 'l'), thermo=thermo, l=[a], g=[b])
         if kind == 'm3':
             return tmo.MultiStream(None, T=T, P=P, phases=('g', 'l', 's'), thermo=thermo, l=[a], s=[b])
+        if kind == 'ls':
+            # a phase set that a later copy_like from (g,l,s) extends with a phase sorting BEFORE the existing rows
+            return tmo.MultiStream(None, T=T, P=P, phases=('l', 's'), thermo=thermo, l=[a], s=[b])
         raise ValueError(kind)
 
     def build(self, config):
@@ -251,7 +254,13 @@ class C11(System):
                                 tuple(sorted((int(i), fx.r12(e[0]._T), fx.r12(e[0]._P), tuple(str(m) for m in e[1:-1]), fx.r12(e[-1])) for i, e in dv.cache.items()))]
                     rows.append(tuple(ent))
                 views.append((k, vph, tuple(rows)))
-            out.append((d, dcts, tuple(views)))
+            ic = None
+            if hasattr(imol, '_index_cache'):
+                from thermosteam.indexer import MaterialIndexer
+                bound = MaterialIndexer._index_caches.get((imol._phases, imol._chemicals))
+                ic = (bound is imol._index_cache, tuple(sorted(repr(k) for k in imol._index_cache)))
+            cc = tuple(sorted(repr(k) for k in x.chemicals._index_cache))
+            out.append((d, dcts, tuple(views), ic, cc))
         return tuple(out)
 
     # ---- state oracle -------------------------------------------------------------------------------
@@ -384,9 +393,34 @@ class C11(System):
                 raise Violation('unexpected-exception', f'{who}.get_flow/get_total_flow({u!r}) raised {type(ex).__name__}: {ex}',
                                 match=dict(exc=type(ex).__name__, where='get_flow', kind=kind), detail=dict(who=who))
 
+    def _check_keyed(self, st, who, op):
+        """item access by (phase, chemical) key through imol / imass / ivol agrees with the molar rows (the key -> position memo of the
+        indexer is a second piece of cached state next to the view cache)."""
+        x = st.s if who == 's' else st.o
+        tr = Truth(x)
+        kind = 'multi' if tr.multi else 'single'
+        for dim in ('mol', 'mass', 'vol'):
+            frs = tr.factor_rows(dim)
+            try:
+                ind = x.imol if dim == 'mol' else (x.imass if dim == 'mass' else x.ivol)
+                for ri, p in enumerate(tr.phases):
+                    for ci, nm in enumerate(tr.IDs):
+                        key = (p, nm) if tr.multi else nm
+                        got = float(ind[key]); e = float(tr.rows[ri][ci] * frs[ri][ci])
+                        if not close(got, e):
+                            raise Violation('keyed-read', f'{who}.i{dim}[{key!r}] = {got!r}, row {p!r} of the molar data x factor = {e!r} '
+                                            f'(phases {tr.phases}, rows {[r.tolist() for r in tr.rows]}) after {op}',
+                                            match=dict(dim=dim, kind=kind), detail=dict(who=who), residual=resid(got, e))
+            except Violation:
+                raise
+            except Exception as ex:
+                raise Violation('unexpected-exception', f'{who}.i{dim}[(phase, ID)] raised {type(ex).__name__}: {ex} after {op}',
+                                match=dict(exc=type(ex).__name__, where='keyed-' + dim, kind=kind), detail=dict(who=who))
+
     def _check_stream(self, st, who, op):
         self._check_view(st, who, 'mass', op)
         self._check_view(st, who, 'vol', op)
+        self._check_keyed(st, who, op)
         self._check_totals(st, who, op)
         self._check_units(st, who, op, None if self.alphabet == 'units' else HIST_UNITS)
 
@@ -433,6 +467,9 @@ class C11(System):
             for u in UNITS:
                 acts.append(('ctor', u, None)); acts.append(('ctor', u, 5.0))
                 acts.append(('reset_flow', u, None)); acts.append(('reset_flow', u, 5.0))
+                if not multi:
+                    other_phase = 'g' if s.phase != 'g' else 'l'
+                    acts.append(('reset_flow', u, None, other_phase)); acts.append(('reset_flow', u, 5.0, other_phase))
             for dim in ('mol', 'mass', 'vol'):
                 acts.append(('wall', dim, (0.375, 0.0, 2.5)))
             # one structural step so that depth 2 applies every unit to a non-initial state
@@ -469,7 +506,7 @@ class C11(System):
         acts += [('oT', 360.0), ('ow', 2.5)]
         if self.mode == 'lazy':
             for who in ('s', 'o'):
-                for v in ('mass', 'vol', 'tot', 'units'):
+                for v in ('mass', 'vol', 'tot', 'units', 'keyed'):
                     acts.append(('read', who, v))
         return acts
 
@@ -495,6 +532,7 @@ class C11(System):
             st.last_nontrivial = self._cached(x) > 0
             if v in ('mass', 'vol'): self._check_view(st, who, v, 'read')
             elif v == 'tot': self._check_totals(st, who, 'read')
+            elif v == 'keyed': self._check_keyed(st, who, 'read')
             else: self._check_units(st, who, 'read')
             st.last_info = ('read', v)
             return ('read', who, v, _kind(x))
@@ -633,7 +671,8 @@ class C11(System):
             self._bystander(st, a, 'o', bo, shared, tr)
             return 'ok'
         if op in ('ctor', 'reset_flow'):
-            _, u, total = a
+            u, total = a[1], a[2]
+            new_phase = a[3] if len(a) > 3 else None
             dim, f = UNITS[u]
             given = (('Water', 2.0), ('Methanol', 1.0))
             scale = 1.0 if total is None else total / sum(v for _, v in given)
@@ -650,8 +689,8 @@ class C11(System):
                     ph = bs.phases[-1]
                     s.reset_flow(total_flow=total, units=u, phases=bs.phases, **{ph: list(given)})
                 else:
-                    ph = bs.phases[0]
-                    s.reset_flow(units=u, total_flow=total, **dict(given))
+                    ph = new_phase or bs.phases[0]
+                    s.reset_flow(phase=new_phase, units=u, total_flow=total, **dict(given))
             tr = Truth(x)
             ri = tr.phases.index(ph)
             fr = tr.factor_rows(dim)[ri]
@@ -659,10 +698,11 @@ class C11(System):
             for nm, v in given:
                 ci = tr.IDs.index(nm)
                 exp[ri][ci] = v * scale / f / fr[ci]
-            if tr.phases != bs.phases or not all(close(p_, q_) for p_, q_ in zip(tr.rows, exp)):
-                raise Violation('write-effect', f'{a!r}: molar flows are {[r.tolist() for r in tr.rows]}, expected {[e.tolist() for e in exp]}',
-                                match=dict(op=op, dim=dim, kind=kind, total=total is not None),
-                                residual=max(resid(p_, q_) for p_, q_ in zip(tr.rows, exp)) if tr.phases == bs.phases else None)
+            want_phases = (new_phase,) if new_phase else bs.phases
+            if tr.phases != want_phases or not all(close(p_, q_) for p_, q_ in zip(tr.rows, exp)):
+                raise Violation('write-effect', f'{a!r}: molar flows are {[r.tolist() for r in tr.rows]} in phases {tr.phases}, expected {[e.tolist() for e in exp]} in {want_phases}',
+                                match=dict(op=op, dim=dim, kind=kind, total=total is not None, phase_arg=new_phase is not None),
+                                residual=max(resid(p_, q_) for p_, q_ in zip(tr.rows, exp)) if tr.phases == want_phases else None)
             for nm, v in given:
                 key = (ph, nm) if tr.multi else nm
                 got = float(x.get_flow(u, key))
@@ -759,13 +799,13 @@ class C11(System):
         return repr((a[0], a[1] if a[0] in ('w', 'read', 'baddim', 'F') else None, obs, share, caches))[:300]
 
 
-_ALL = ('l', 'g', 'm')
+_PAIRS_EAGER = (('l', 'l'), ('l', 'g'), ('g', 'l'), ('m', 'm'), ('m', 'm3'), ('l', 'm3'), ('m', 'l'), ('ls', 'm3'))
+_PAIRS_LAZY = (('l', 'l'), ('l', 'm'), ('l', 'm3'), ('m', 'l'), ('m', 'm'), ('m', 'm3'), ('ls', 'm3'))
 SYSTEMS = [
     # every unit / every write door, applied to every stream kind at depth 1 and after one structural step at depth 2
     C11('c11.units', 'eager', 2, 2, ('l', 'g', 'm'), ('l',), alphabet='units'),
-    # histories with all views re-read (and thereby cached) after every action
-    C11('c11.eager', 'eager', 3, 4, ('l', 'g', 'm'), ('l', 'g', 'm', 'm3', 's'),
-        quick_pairs=(('l', 'l'), ('l', 'g'), ('g', 'l'), ('m', 'm'), ('m', 'm3'), ('l', 'm3'), ('m', 'l')), tcap_q=120, tcap_t=900),
-    # histories in which views are only created / read by explicit read actions (cache-creation order is explored)
-    C11('c11.lazy', 'lazy', 3, 4, ('l', 'm'), ('l', 'm', 'm3'), tcap_q=120, tcap_t=900),
+    # histories with all views (whole arrays AND keyed items) re-read, and thereby cached, after every action
+    C11('c11.eager', 'eager', 3, 4, ('l', 'g', 'm', 'ls'), ('l', 'g', 'm', 'm3', 's'), quick_pairs=_PAIRS_EAGER, tcap_q=120, tcap_t=900),
+    # histories in which views / key memos are only created by explicit read actions (cache-creation order is explored)
+    C11('c11.lazy', 'lazy', 3, 4, ('l', 'm', 'ls'), ('l', 'm', 'm3'), quick_pairs=_PAIRS_LAZY, tcap_q=120, tcap_t=900),
 ]
